@@ -42,12 +42,17 @@ LEVEL_TEXT = ("Proved (Coq, closed under the global context): (1) end to end ove
               "cell in the window + dates of the journal in the window per commodity other than V: Valuate books no revaluation when no price "
               "moved (C03_no_revaluation_without_price_change), ComputePrices carries prices over days without declarations, and the days "
               "--close touches at the period starts carry nothing, so --close adds no step; C03_step_bound_suffices: that count over the held "
-              "commodities <= step_bound.")
+              "commodities <= step_bound. (4) Rows aggregated by --mapping / swapped by --remap (C03_windowed_mapped, no shows_account "
+              "condition): a row b of asset/liability type shows the sum over the accounts of the journal that land on it (remap, then the "
+              "first matching mapping rule; pass --account) of their mark-to-market changes, up to the sum of their step counts; the list "
+              "of these accounts is executable (sources_of, C03_sources_of); remap and shorten keep an account valid and in its class "
+              "(C03_lands_class), so CloseAccounts and the Income mirrors never reach such a row.")
 LEVEL_NOTE = ("Trusted: kernel, extraction, harness, hand-written model (sampled tie). Side conditions of the report theorems: posting accounts "
               "syntactically valid (postings_syntactic, the parser's guarantee as in C02/C04/C05), the account is shown as itself (no "
               "--mapping/--remap rule moves it or another account onto it) and passes the filters, non-empty window, column = a period end. Not proved (decided per "
               "run by the closed form on the binary's cells): the printed, collapsed row text (row_value is the sum of the tree's cells over "
-              "the held commodities); rows aggregated by --mapping/--remap; that mtm_expected is Some whenever the run succeeds.")
+              "the held commodities); that mtm_expected is Some whenever the run succeeds.  The generator of this check uses no --mapping/--remap: "
+              "the theorem on aggregated rows (C03_windowed_mapped) is not yet evaluated on the binary's rows by the spec verdict.")
 
 def plan(tier, seed):
     if tier == "quick":
